@@ -21,7 +21,7 @@ Stops(t) ==
   {x \in UNION { {ver[a].end, ver[a].start} : a \in DOMAIN ver }
          \cup UNION { {sil[i].start, sil[i].end + 1} : i \in 1..Len(sil) }
          \cup UNION { {w.from, w.to} : w \in SeqToSet(cfg.windows) }
-         \cup Edges \cup {b + Lag + 1 : b \in Edges} :
+         \cup AllEdgeStops :
      now < x /\ x < t}
 
 Tick == /\ l <= Len(Trace)
@@ -37,9 +37,8 @@ Step ==
   /\ (ev.ev = "cfg" \/ ev.t = now)
   /\ l' = l + 1
   /\ CASE ev.ev = "cfg" ->
-            Cfg([gw |-> ev.data.gw, gi |-> ev.data.gi, ri |-> ev.data.ri, integs |-> ev.data.integs,
-                 inhibit |-> ev.data.inhibit, windows |-> ev.data.windows, wait |-> ev.data.wait, maxwait |-> ev.data.maxwait,
-                 mute |-> ev.data.mute, active |-> ev.data.active, gkp |-> ev.data.gkp])
+            Cfg([root |-> ev.data.root, routes |-> ev.data.routes, integs |-> ev.data.integs,
+                 inhibit |-> ev.data.inhibit, windows |-> ev.data.windows, wait |-> ev.data.wait, maxwait |-> ev.data.maxwait])
        [] ev.ev = "wait" -> SetWait(ev.data.wait)
        [] ev.ev = "nflog.merge" -> NflogMerge(ev.gk, ev.integ, ev.data.ts, ToSet(ev.firing), ToSet(ev.resolved))
        [] ev.ev = "ingest" -> Ingest(ev.alerts[1].l, Ver(ev.alerts[1]))
